@@ -15,7 +15,7 @@ Definition obytes (st : tstate) (o : op) : list byte := render_all (snd (step be
 
 (* ---- bytes = abstract commands, per operation --------------------------------- *)
 Lemma bytes_write_element st v e l :
-  Sync st v -> ts_last st = Some l -> wf_elem e = true ->
+  Sync st v -> ts_last st = Some l -> wf_elem_c e = true ->
   vt_bytes cfg v (render_all (snd (write_element beh st e))) =
   vt_execs cfg v (snd (write_element beh st e)).
 Proof.
@@ -29,7 +29,7 @@ Proof.
 Qed.
 
 Lemma bytes_write_elements : forall es st v,
-  Sync st v -> ts_last st <> None -> forallb wf_elem es = true ->
+  Sync st v -> ts_last st <> None -> forallb wf_elem_c es = true ->
   vt_bytes cfg v (render_all (snd (write_elements beh st es))) =
   vt_execs cfg v (snd (write_elements beh st es)).
 Proof.
@@ -37,7 +37,7 @@ Proof.
   cbn [forallb] in Hwf. apply andb_prop in Hwf as [He Hes].
   destruct (ts_last st) as [l|] eqn:El; [|congruence].
   pose proof (bytes_write_element st v e l S El He) as Hb.
-  pose proof (sync_write_element cfg beh Huni st v e l S El He) as H. cbv zeta in H.
+  pose proof (sync_write_element_c cfg beh Huni st v e l S El He) as H. cbv zeta in H.
   destruct H as [S1 _].
   cbn [write_elements].
   destruct (write_element beh st e) as [st1 c1] eqn:E1. cbn [fst snd] in *.
@@ -126,12 +126,12 @@ Proof.
     destruct Ho as (S1 & Hl1 & Ht1 & Hm1 & _ & _ & _ & Hc1 & Hs1).
     destruct (optional_default_attribute st) as [st1 c1] eqn:E1. cbn [fst snd] in *.
     destruct (ts_last st1) as [l1|] eqn:El1; [|congruence].
-    pose proof (sync_write_element cfg beh Huni st1 (vt_execs cfg v c1) e l1 S1 El1 Hwf) as H.
-    cbv zeta in H. destruct H as [S2 [[q [Htr Hq]] [Hm _]]].
+    pose proof (sync_write_element_c cfg beh Huni st1 (vt_execs cfg v c1) e l1 S1 El1 Hwf) as H.
+    cbv zeta in H. destruct H as (S2 & Hm & tr & Hpl & Htr).
     destruct (write_element beh st1 e) as [st2 c2] eqn:E2. cbn [fst snd] in *.
     rewrite vt_execs_app. split; [exact S2|]. split.
-    + exists [(q, display_of e)]. split.
-      * constructor; [rewrite <- Hc1; exact Hq|constructor].
+    + exists tr. split.
+      * rewrite <- Hc1, <- Hs1. exact Hpl.
       * rewrite Htr, Ht1. reflexivity.
     + rewrite Hm. exact Hm1.
   - (* WStr *)
@@ -148,10 +148,10 @@ Proof.
   - (* WRaw *)
     destruct Hwf as [Hwf Hl]. cbn [step].
     destruct (ts_last st) as [l|] eqn:El; [|congruence].
-    pose proof (sync_write_element cfg beh Huni st v e l S El Hwf) as H.
-    cbv zeta in H. destruct H as [S2 [[q [Htr Hq]] [Hm _]]].
+    pose proof (sync_write_element_c cfg beh Huni st v e l S El Hwf) as H.
+    cbv zeta in H. destruct H as (S2 & Hm & tr & Hpl & Htr).
     split; [exact S2|]. split; [|exact Hm].
-    exists [(q, display_of e)]. split; [constructor; [exact Hq|constructor]|exact Htr].
+    exists tr. split; [exact Hpl|exact Htr].
   - (* ODA *)
     pose proof (sync_oda cfg beh st v S) as Ho. cbv zeta in Ho.
     destruct Ho as (S1 & _ & Ht1 & Hm1 & _).
@@ -224,14 +224,22 @@ Fixpoint wf_hist (st : tstate) (h : list hop) : Prop :=
 Definition hist_elems (h : list hop) : list element :=
   flat_map (fun x => match x with HOp o => op_elems o | HResize _ _ => [] end) h.
 
-Lemma placed_cells w c es tr : placed w c es tr -> map snd tr = map display_of es.
-Proof. induction 1; cbn [map snd]; [reflexivity|]. f_equal. assumption. Qed.
+Lemma placed_cells w c es tr : placed w c es tr -> map snd tr = map display_of (visible es).
+Proof.
+  induction 1 as [|c e es q tr Hc Hq Hrest IH|c e es tr Hc Hrest IH]; unfold visible in *; cbn [map snd filter].
+  - reflexivity.
+  - rewrite Hc. cbn [negb map]. f_equal. exact IH.
+  - rewrite Hc. cbn [negb]. exact IH.
+Qed.
+
+Lemma visible_app a b : visible (a ++ b) = visible a ++ visible b.
+Proof. unfold visible. apply filter_app. Qed.
 
 Theorem sync_hrun : forall h st v,
   Sync st v -> wf_hist st h ->
   Sync (fst (hrun st v h)) (snd (hrun st v h)) /\
   map snd (trace (snd (hrun st v h))) =
-    rev (map display_of (hist_elems h)) ++ map snd (trace v).
+    rev (map display_of (visible (hist_elems h))) ++ map snd (trace v).
 Proof.
   induction h as [|x r IH]; intros st v S Hwf.
   - cbn. split; [exact S|reflexivity].
@@ -243,7 +251,7 @@ Proof.
       specialize (IH _ _ S1 Hr). unfold hrun in IH. destruct IH as [IH1 IH2].
       split; [exact IH1|]. rewrite IH2, Htr.
       change (hist_elems (HOp o :: r)) with (op_elems o ++ hist_elems r).
-      rewrite !map_app, rev_app_distr, map_rev.
+      rewrite visible_app, !map_app, rev_app_distr, map_rev.
       rewrite (placed_cells _ _ _ _ Hpl). rewrite <- app_assoc. reflexivity.
     + destruct (sync_resize st v sz a S) as (S1 & Ht & _).
       specialize (IH _ _ S1 Hr). unfold hrun in IH. destruct IH as [IH1 IH2].
